@@ -439,8 +439,7 @@ def compare(real: Dict[str, Any], before: Dict[str, float], after: Dict[str, flo
         # with several planned faults in this phase, WHICH one is met first also depends on the iteration order
         strict = nplan <= 1 or set(faulted_r) == set(faulted_m)
         for k in set(pr) & set(pm):
-            clean = all(f == 0 for _o, f in pr[k]) and all(f == 0 for _o, f in pm[k])
-            if pr[k] != pm[k] and not clean and (strict or (k in faulted_r and k in faulted_m)):
+            if pr[k] != pm[k] and (strict or (k in faulted_r) == (k in faulted_m)):
                 diffs.append(f"calls on {k}: code={pr[k]} model={pm[k]}")
         if faulted_r != faulted_m and strict:
             diffs.append(f"faulted calls differ: code={faulted_r} model={faulted_m}")
